@@ -11,6 +11,9 @@ SWC = lambda a, dl=NONE: lop("swc", a=a, dl=dl, x=0, objs=[])      # nsync_sem_w
 SEMV = lambda t: lop("semv", a=t, x=0, objs=[])                   # nsync_mu_semaphore_v on thread t's waiter semaphore
 CADD = lambda d: lop("cadd", a=d, x=0, objs=[])                     # nsync_counter_add on the counter that is object 9 of "waitn"
 WAITN = lambda objs, dl=NONE: lop("waitn", a=int("".join(str(o) for o in objs)), dl=dl, x=0, objs=list(objs))
+WAITNM = lambda objs, dl=NONE: lop("waitn", a=int("".join(str(o) for o in objs)), dl=dl, x=2, objs=list(objs))   # ... passing the client's mutex (held)
+MLOCK = lop("mlock", x=0, objs=[])
+MUNLOCK = lop("munlock", x=0, objs=[])
 
 
 def T(*es):
@@ -67,6 +70,9 @@ CONF = {
                                         progs=[[NOTIFY(1)], [WAIT(3, 1), POLL(4)], [NEW(5, 2, 2), WAIT(5), FREE(5)], [SWC(4, 1), POLL(2)]])),
     "big_b": (["C08", "C11", "C13"], "q", dict(tree=T((1, 0, NONE), (2, 1, NONE), (3, 1, 1), (4, 0, NONE)), NN=4, CV0=2, MaxNow=1, _sim=(12, 500),
                                                progs=[[WAITN([2, 9, 4], 1), POLL(3)], [CADD(-1), NOTIFY(4)], [WAITN([9, 3]), CADD(-1)], [SWC(2, 1), NOTIFY(1)]])),
+    # nsync_wait_n given the caller's mutex and several objects: released only once everything is registered, always held again on return
+    "m_2": (["C11", "C01"], "q", dict(tree=T((1, 0, NONE), (2, 0, NONE)), NN=2, MaxNow=1, progs=[[MLOCK, WAITNM([1, 2], 1), MUNLOCK], [NOTIFY(1)], [MLOCK, MUNLOCK]])),
+    "m_c": (["C11", "C01"], "q", dict(tree=T((1, 0, NONE)), NN=1, CV0=1, MaxNow=0, progs=[[MLOCK, WAITNM([1, 9]), MUNLOCK], [NOTIFY(1), CADD(-1)], [MLOCK, MUNLOCK]])),
     "x_hb": (["C03"], "q", dict(tree=T((1, 0, NONE)), NN=1, CV0=1, MaxNow=0, progs=[[WAITN([9, 1])], [CADD(-1)]])),
     # C19: allocation failure at every constructor call of tree-building scenarios
     "a_seq": (["C19"], "q", dict(tree=T((1, 0, NONE)), NN=3, progs=[[NEW(2, 1, NONE, 1), NEW(2, 1), NEW(3, 2, 5, 1), NEW(3, 2, 5), NOTIFY(1), POLL(3)]])),
